@@ -175,6 +175,9 @@ def run_shard(spec, ctx):
         r = ctx.rng
         for _ in range(spec["n"]):
             n = r.randint(5, 30)
+            if r.random() < 0.15:
+                n = r.choice([64, 65, 128, 129, 130, 256, 257, 1000])
+                ctx.count("long_sequences")
             if r.random() < 0.5:
                 s = "".join(r.choice("abcab ") for _ in range(n))
             else:
